@@ -3,7 +3,7 @@
 import ast
 import re as re_
 
-from .. import blocks, dtypes, dunder_sub, gridfun, misc_guards, polarity, proto, roles
+from .. import aliasmut, blocks, dtypes, dunder_sub, gridfun, misc_guards, polarity, proto, roles
 from ..core import AnalysisError
 from ..proto import NC, NCEval
 from ..src import arg_names, calls_in, unparse
@@ -455,6 +455,8 @@ def run(ctx):
     dunder_sub.subclass_dunders(ctx)
     dunder_sub.transpose_adjoint(ctx)
     dunder_sub.subclass_products(ctx)
+    dunder_sub.real_on_complex(ctx)
+    aliasmut.alias_mutation(ctx)  # an operand is a value: a sum / product must not modify the array its operand holds
     dunder_sub.blocked_to_dense(ctx)
     blocks.block_bookkeeping(ctx)
     blocks.packing_offsets(ctx)
